@@ -2,7 +2,7 @@
    Corollary layer over the C02 development: what both engine models print for a value and how they turn main's
    result into an exit status coincide with the reference, hence with each other. *)
 From Coq Require Import ZArith NArith List Bool.
-From NV Require Import Lang.Ast Lang.Ref Back.VmCompile Back.VmExec Back.NatSem Back.OpTable Back.Agree.
+From NV Require Import Lang.Ast Lang.Ref Back.VmCompile Back.VmExec Back.NatSem Back.OpTable Back.Agree Back.NatOrder Back.NatOrderProofs.
 Import ListNotations.
 
 (* value printing: the VM's val_print model and the reference/native printing agree on every scalar and string *)
@@ -14,3 +14,55 @@ Print Assumptions C01_print_alike.
 Theorem C01_native_ltor_is_reference : forall fuel p, cc_refuses p = false -> nat_as_ref (run_nat LtoR fuel p) = run_ref fuel p.
 Proof. exact nat_ltor_is_ref. Qed.
 Print Assumptions C01_native_ltor_is_reference.
+
+(* ---- the order in which C evaluates the arguments of a call (NatSem.arg_order; gcc: right to left) ----
+   se_program p: every call in p has at most one argument that contains a call or a / or % (NatOrder.v). *)
+
+(* fuel is only an artefact: an outcome other than NOutOfFuel is kept by every larger fuel, whatever the order *)
+Theorem C01_native_fuel_monotone : forall ord n m p, n <= m -> run_nat ord n p <> NOutOfFuel -> run_nat ord m p = run_nat ord n p.
+Proof. exact run_nat_mono. Qed.
+Print Assumptions C01_native_fuel_monotone.
+
+(* under se_program a run with one order that ends without being stuck is reproduced by the other order for EVERY
+   large enough fuel, unless that other run gets stuck (a quiet but ill-typed argument such as (not 1) can be
+   evaluated by one order only: C01_order_stuck_alternative_needed; well-typed programs are never stuck) *)
+Theorem C01_native_order_irrelevant : forall o1 o2 p fuel r, se_program p = true ->
+  run_nat o1 fuel p = r -> r <> NOutOfFuel -> r <> NStuckO ->
+  exists fuel0, forall fuel', fuel0 <= fuel' -> run_nat o2 fuel' p = r \/ run_nat o2 fuel' p = NStuckO.
+Proof. exact native_order_general. Qed.
+Print Assumptions C01_native_order_irrelevant.
+
+(* fuel-free symmetric form: two runs, one per order, that both end without being stuck end alike *)
+Theorem C01_native_orders_agree : forall p f1 f2, se_program p = true ->
+  run_nat LtoR f1 p <> NOutOfFuel -> run_nat LtoR f1 p <> NStuckO ->
+  run_nat RtoL f2 p <> NOutOfFuel -> run_nat RtoL f2 p <> NStuckO ->
+  run_nat RtoL f2 p = run_nat LtoR f1 p.
+Proof. exact native_orders_agree. Qed.
+Print Assumptions C01_native_orders_agree.
+
+(* with gcc's order the native model reaches the reference outcome (Done or Faulted) *)
+Theorem C01_native_rtol_reaches_reference : forall p fuel, se_program p = true -> cc_refuses p = false ->
+  run_ref fuel p <> OutOfFuel -> run_ref fuel p <> StuckO ->
+  exists fuel0, forall fuel', fuel0 <= fuel' ->
+    nat_as_ref (run_nat RtoL fuel' p) = run_ref fuel p \/ run_nat RtoL fuel' p = NStuckO.
+Proof. exact native_rtol_reaches_ref. Qed.
+Print Assumptions C01_native_rtol_reaches_reference.
+
+(* hypotheses are satisfiable: main returns (f3 (f1 1) 2 v) with f1 printing -- one loud argument *)
+Example C01_order_hypotheses_satisfiable :
+  se_program demo_prog = true /\ cc_refuses demo_prog = false /\
+  run_nat LtoR 20 demo_prog = NDone [49; 10; 57; 10]%N 9 /\
+  run_nat RtoL 20 demo_prog = NDone [49; 10; 57; 10]%N 9.
+Proof. exact demo_one_loud_argument. Qed.
+(* se_program is not idle: (f3 (f1 1) (f1 2) v) prints in a different order *)
+Example C01_order_two_loud_arguments_differ :
+  se_program demo_prog_two_loud = false /\
+  run_nat LtoR 20 demo_prog_two_loud = NDone [49; 10; 50; 10; 49; 48; 10]%N 10 /\
+  run_nat RtoL 20 demo_prog_two_loud = NDone [50; 10; 49; 10; 49; 48; 10]%N 10.
+Proof. exact demo_two_loud_arguments_differ. Qed.
+(* the stuck alternative cannot be dropped: main returns (f1 (/ 1 0) (not 1)) *)
+Example C01_order_stuck_alternative_needed :
+  se_program cex_prog = true /\ cc_refuses cex_prog = false /\
+  run_nat LtoR 10 cex_prog = NFaulted NFSigfpe [] /\
+  forall fuel', run_nat RtoL fuel' cex_prog = NOutOfFuel \/ run_nat RtoL fuel' cex_prog = NStuckO.
+Proof. exact order_stuck_alternative_needed. Qed.
